@@ -9,7 +9,7 @@ origin classes of a u32 / i64 / Option<u32> value:
   RAW     an element of some other container (vector indexing): not a translated index
   UNKNOWN anything else
 """
-from .ir import walk, strip
+from .ir import walk, strip, call_target, substitute
 
 PASS_ARG0 = {'copied', 'cloned', 'unwrap', 'expect', 'unwrap_or_default', 'as_ref', 'as_mut', 'filter', 'into', 'from',
              'clone', 'deref', 'deref_mut', 'borrow', 'borrow_mut', 'take', 'as_deref', 'unwrap_unchecked', 'to_owned'}
@@ -31,12 +31,27 @@ class Origins:
     def tables(self):
         if self._tables is None:
             self._tables = {}
+            pending = []
             for b in self.bodies.values():
                 for pt, t in b.calls():
                     c = t.get('callee')
                     if c and c['name'] == 'insert' and len(t['args']) == 3:
                         root = self.table_root(b.expr_of_operand(t['args'][0]))
-                        self._tables.setdefault(root, []).append((b, t, b.expr_of_operand(t['args'][2])))
+                        val = b.expr_of_operand(t['args'][2])
+                        self._tables.setdefault(root, []).append((b, t, val))
+                        if root is not None and root[0] == 'arg' and b.d['kind'] != 'Closure':
+                            pending.append((b, root, t, val))
+            # inserts made by a helper function into a table it receives as a parameter: attribute them to the caller's table
+            for hb, root, t, val in pending:
+                for b in self.bodies.values():
+                    for pt, ct in b.calls():
+                        c = ct.get('callee')
+                        if not c or (c.get('resolved') or c['path']) != hb.key:
+                            continue
+                        actuals = {i + 1: b.expr_of_operand(a) for i, a in enumerate(ct['args'])}
+                        if root[1] in actuals:
+                            aroot = self.table_root(actuals[root[1]])
+                            self._tables.setdefault(aroot, []).append((b, ct, substitute(val, hb.key, actuals)))
         return self._tables
 
     def closure_body(self, e):
@@ -115,6 +130,13 @@ class Origins:
         if k == 'call':
             name = e[1].rsplit('::', 1)[-1]
             args = e[2]
+            ct = call_target(self.f, e) if name not in ('get', 'get_mut', 'len', 'insert') else None
+            if ct is not None:
+                body, actuals = ct
+                key = ('F', body.key)
+                if key in seen:
+                    return set()
+                return self.origin(substitute(body.expr_of_local(0), body.key, actuals), seen | {key}, depth + 1)
             if name == 'len' and args:
                 return {'GLOBAL'}
             if name in ('get', 'get_mut') and args:
